@@ -143,7 +143,10 @@ class SingleSiblingPureFunction(PureFunction):
         super().__init__(fcntocall)
 
     def _get_all_obj_params_init(self) -> List:
-        return self.pfunc._get_all_obj_params_init()
+        # the wrapped function is already set up: list its tensors without setting it up
+        # again (that would re-record the names of a torch.nn.Module's parameters in
+        # their present order behind the back of the wrappers that share it)
+        return self.pfunc._get_all_obj_params_now()
 
     def _get_all_obj_params_now(self) -> List:
         return self.pfunc._get_all_obj_params_now()
@@ -161,7 +164,7 @@ class MultiSiblingPureFunction(PureFunction):
         res: List[Union[torch.Tensor, torch.nn.Parameter]] = []
         self.cumsum_idx = [0] * (self.npfuncs + 1)
         for i, pfunc in enumerate(self.pfuncs):
-            objparams = pfunc._get_all_obj_params_init()
+            objparams = pfunc._get_all_obj_params_now()  # (see SingleSiblingPureFunction)
             res = res + objparams
             self.cumsum_idx[i + 1] = self.cumsum_idx[i] + len(objparams)
         return res
